@@ -456,7 +456,7 @@ def _ramberg(ctx):
     env = {s_.targets[0].id: s_.value for s_ in gs.node.body if isinstance(s_, ast.Assign) and isinstance(s_.targets[0], ast.Name)}
     vals = [env.get(e.id, e) if isinstance(e, ast.Name) else e for e in r.value.elts] if isinstance(r.value, ast.Tuple) else []
     ok = len(vals) == 2 and call_name(vals[0]) in ("np.fabs", "np.abs") and call_name(vals[1]) == "np.sign" and \
-        norm_text(vals[0].args[0]) == norm_text(vals[1].args[0]) == gs.params[1]
+        norm_text(vals[0].args[0]) == norm_text(vals[1].args[0]) == [p_ for p_ in gs.params if p_ not in ("self", "cls")][0]
     if ok:
         ctx.holds(gs, r, "_get_abs_sign returns (|x|, sign x)", rule="R-C16-7")
     else:
